@@ -978,10 +978,11 @@ func Generate(c Chooser, o GenOptions) *Program {
 	perm := map[int]bool{}
 	for len(g.imps) < nimp {
 		i := c.Int(len(stdImports))
-		if !perm[i] {
-			perm[i] = true
-			g.imps = append(g.imps, stdImports[i])
+		for perm[i] { // linear probe: a chooser that always answers 0 must terminate
+			i = (i + 1) % len(stdImports)
 		}
+		perm[i] = true
+		g.imps = append(g.imps, stdImports[i])
 	}
 	// always offer fmt and strings-ish so expressions have material
 	for _, must := range []string{"fmt", "strings", "strconv"} {
